@@ -114,14 +114,18 @@ func GenProgram(t *rapid.T, o *GenOpts) *Program {
 	dirs := []string{"", "sub/", "sub/deep/", "other/"}
 	used := map[string]bool{}
 	var files []*File
+	prevStem := ""
 	for i := 0; i < nf; i++ {
 		stem := pickStr(g, fileStems, "fstem")
 		dir := pickStr(g, dirs, "fdir")
 		// the same base name may live in different directories (two files including both is
 		// impossible: the include names would clash, see the include selection below)
-		for used[dir+stem] || (used["stem:"+stem] && (g.o.UniqueNames || !g.chance(1, 2, "samebase"))) {
+		// (every file includes the next one, so that the whole program is reachable from the
+		// first file: neighbours never share a base name)
+		for used[dir+stem] || stem == prevStem || (used["stem:"+stem] && (g.o.UniqueNames || !g.chance(1, 2, "samebase"))) {
 			stem += "x"
 		}
+		prevStem = stem
 		used[dir+stem] = true
 		used["stem:"+stem] = true
 		files = append(files, &File{Path: dir + stem + ".thrift"})
@@ -173,6 +177,7 @@ func GenProgram(t *rapid.T, o *GenOpts) *Program {
 			}
 			if len(cands) > 0 {
 				d := cands[g.intn(0, len(cands)-1, "backtarget")]
+				g.file = from
 				from.Defs = append(from.Defs, &Def{Kind: DTypedef, Name: g.newTypeName(), Target: &Type{K: TRef, Ref: &Ref{File: to.Path, Name: d.Name}}, File: from.Path})
 			}
 		}
